@@ -311,6 +311,7 @@ class TokenizerState:
         self.pos = 0
         self.max = 0
         self.end_progs: list[EndProg] = []
+        self.blank_line = False  # the current line was a blank or comment-only line
 
     def move_next_line(self, readline: Callable[[], str]) -> None:
         self.last_line = self.line
@@ -519,7 +520,7 @@ def next_psuedo_matches(state: TokenizerState) -> TokenInfo | None:
 
 def next_end_tokens(state: TokenizerState) -> Iterator[TokenInfo]:
     # Add an implicit NEWLINE if the input doesn't end in one
-    if state.last_line and state.last_line[-1] != "\n" and not state.last_line.strip().startswith("#"):
+    if state.last_line and state.last_line[-1] != "\n" and not state.blank_line:
         yield TokenInfo(
             Token.NEWLINE,
             "",
@@ -624,6 +625,7 @@ def _tokenize(readline: Callable[[], str]) -> Iterator[TokenInfo]:
         elif state.parenlev == 0 and not state.continued:  # new statement
             loop_action = yield from next_statement(state)
             if loop_action is True:
+                state.blank_line = True
                 continue
             elif loop_action is False:
                 break
@@ -634,6 +636,8 @@ def _tokenize(readline: Callable[[], str]) -> Iterator[TokenInfo]:
                 raise TokenError("EOF in multi-line statement", (state.lnum, 0))
             state.continued = False
 
+        if state.line:
+            state.blank_line = False
         while state.pos < state.max:
             pos = state.pos
             yield from handle_end_progs(state)
